@@ -51,7 +51,7 @@ def opLinks (args : List String) : String :=
   match decodePair args with
   | .error m => m
   | .ok (s, d) =>
-    match walkDoc s d with
+    match walkDoc s.view d with
     | none => "OUTOFFUEL"
     | some evs => linkDump evs
 
@@ -59,7 +59,7 @@ def opEvents (args : List String) : String :=
   match decodePair args with
   | .error m => m
   | .ok (s, d) =>
-    match walkDoc s d with
+    match walkDoc s.view d with
     | none => "OUTOFFUEL"
     | some evs => ",".intercalate (evs.map fun e => e.p.kindName)
 
@@ -74,10 +74,10 @@ def opValidateLinks (args : List String) : String :=
       match decodePair rest with
       | .error m => m
       | .ok (s, d) =>
-        match walkDoc s d with
+        match walkDoc s.view d with
         | none => "OUTOFFUEL"
         | some evs =>
-          let v := match runAll s d (rules.map Rule.start) evs with
+          let v := match runAll s.view d (rules.map Rule.start) evs with
             | .ok [] => "OK"
             | .ok errs => ";".intercalate (errs.map renderErr)
             | .error m => "PANIC," ++ toHexW m
